@@ -2,6 +2,8 @@ package c13
 
 import (
 	"fmt"
+	"strconv"
+	"strings"
 
 	"github.com/0xReLogic/Helios/verifharness/lab"
 	"pgregory.net/rapid"
@@ -30,6 +32,32 @@ var nameStyles = []nameStyle{
 	{"names=address-like", func(i int) string { return fmt.Sprintf("10.8.%d.%d:8080", i/250, i%250+1) }},
 	{"names=path-like", func(i int) string { return fmt.Sprintf("pool/blue/%x", i*2654435761%1000003) }},
 	{"names=free-text", func(i int) string { return fmt.Sprintf("Web server #%d (rack %c)", i+1, 'A'+rune(i%7)) }},
+	// Round 9: a name is an opaque string of any length (Helios documents no limit), and two names are two
+	// backends as soon as they differ in one byte - wherever that byte is. Generated names (orchestrator pod
+	// names, service-discovery paths) are long and share everything but their tail.
+	{"names=long-shared-prefix-96", func(i int) string {
+		return fmt.Sprintf("checkout-api.payments.prod.eu-west-1.svc.cluster.local-replicaset-7c9f8d6b54-zone-b-pod-%04d", i)
+	}},
+	{"names=long-shared-prefix-260", func(i int) string {
+		return "consul://dc1/services/" + strings.Repeat("edge-gateway.", 18) + fmt.Sprintf("instance/%d", i)
+	}},
+	{"names=differ-in-the-middle", func(i int) string {
+		return fmt.Sprintf("rack-%04d/", i) + strings.Repeat("x", 70) + "/web"
+	}},
+	{"names=differ-in-case-or-last-byte", func(i int) string {
+		// base-52 over letters of both cases: "srv-a", "srv-A", "srv-b", ... names equal up to case or last byte
+		const al = "aAbBcCdDeEfFgGhHiIjJkKlLmMnNoOpPqQrRsStTuUvVwWxXyYzZ"
+		n, t := i, ""
+		for {
+			t = string(al[n%len(al)]) + t
+			if n /= len(al); n == 0 {
+				break
+			}
+		}
+		return "srv-" + t
+	}},
+	{"names=beyond-ascii", func(i int) string { return fmt.Sprintf("bäckend-%d-東京-%c", i, 'α'+rune(i%24)) }},
+	{"names=one-or-two-bytes", func(i int) string { return strconv.FormatInt(int64(i), 36) }},
 }
 
 func genNameStyle(rt *rapid.T) nameStyle {
